@@ -23,6 +23,27 @@ CLAIMS = {
         "Trusts CPython's struct semantics and the analyser; idioms other than struct.unpack/unpack_from/int.from_bytes "
         "yield exit 2 (analysis error), never a verdict.",
         "DESIGN.md §4 C01"),
+    "C09": (
+        "symbolic interpretation of handler + dataclass __str__ into output templates; per-position provenance of every hole",
+        "Decided in full for the call part: for each of the ~400 BSC_/MSC_ registry keys the rendered text is derived as "
+        "a template whose holes are symbolic expressions over the START/END words; every hole at call position p is shown "
+        "to depend on START word p only (value dependence), on no END/other record/table, and numeric holes are shown to "
+        "be the word itself in decimal/hex/signed form. One fact covers all four-argument tuples and all END records of a "
+        "decoder, which sampling cannot.",
+        "Trusts the symbolic interpreter's model of the Python subset used (f-strings, conditional expressions, tuple "
+        "unpacking, starred slices of the 4-word values tuple, inlined helper functions); symbolic decoders "
+        "(enum lookups, flag joins) are treated as opaque functions of their argument (their correctness is C11's).",
+        "DESIGN.md §4 C09"),
+    "C10": (
+        "symbolic interpretation (result serializer inlined) + case analysis of the rendered template on the END error word",
+        "Decided structurally for all START x END tuples: every non-exempt BSC_ decoder's text is shown to branch on "
+        "events[-1].values[0] on every path; on the non-zero side the tail reads 'errno: ' with holes that are exactly the "
+        "code or a name looked up by exactly the code and no other END word; on the zero side there is no errno text, no "
+        "dependence on the error word and the only END-derived holes are renderings of events[-1].values[1]; the call part "
+        "never depends on the END record. The exempt set is the property's own list frozen by registry key.",
+        "Trusts the interpreter as for C09; string truthiness is decided from literal content (an f-string with a non-empty "
+        "literal part is truthy).",
+        "DESIGN.md §4 C10"),
     "C17": (
         "registry/code-table resolution (dict literals through functools.partial vs trace.codes) + symbolic template "
         "comparison of twin renderings",
